@@ -289,3 +289,72 @@ func EqualStrict(a, b protoreflect.Message, m *Message, s *Schema) bool {
 	Normalize(bc, m, s)
 	return proto.Equal(ac.Interface(), bc.Interface())
 }
+
+// DeepCases (thorough): the single-field contexts nested one level further —
+// the whole inner schema is placed below an outer object / flattened object /
+// oneof arm / array element / map value.
+func DeepCases() []*Case {
+	var out []*Case
+	outers := []string{"nested", "flattened", "arm-message", "array-element", "map-value"}
+	for _, k := range AllKinds() {
+		for _, l := range labelsFor(k) {
+			for _, inner := range Contexts {
+				if (inner == "oneof-arm-scalar" || inner == "exposed-oneof") && (l != Single || k == KFlatten) {
+					continue
+				}
+				for _, outer := range outers {
+					c := buildContext(k, l, inner)
+					if c == nil {
+						continue
+					}
+					in := c.Schema.Root
+					in.Name = "Inner"
+					for _, m := range allMessages(in) {
+						if m.Name == "W" || m.Name == "Alt" || m.Name == "Holder" {
+							m.Name = "In" + m.Name
+						}
+					}
+					var root *Message
+					switch outer {
+					case "nested":
+						h := F("outer_holder", 1, KObject, Single)
+						h.Msg = in
+						root = &Message{Name: "T", Fields: []*Field{h}, Full: true}
+					case "flattened":
+						h := F("outer_holder", 1, KFlatten, Single)
+						h.Msg = in
+						root = &Message{Name: "T", Fields: []*Field{h, F("outer_other", 2, KString, Single)}, Full: true}
+					case "arm-message":
+						arm := F("outer_holder", 1, KObject, Single)
+						arm.Msg = in
+						alt := F("outer_alt", 2, KObject, Single)
+						alt.Msg = &Message{Name: "Alt", Fields: []*Field{F("z_val", 1, KBool, Single)}}
+						w := &Message{Name: "W", IsOneof: true, Fields: []*Field{arm, alt}, Full: true}
+						wf := F("outer_w", 1, KOneof, Single)
+						wf.Msg = w
+						root = &Message{Name: "T", Fields: []*Field{wf}, Full: true}
+					case "array-element":
+						h := F("outer_holders", 1, KObject, Repeated)
+						h.Msg = in
+						root = &Message{Name: "T", Fields: []*Field{h}, Full: true}
+					case "map-value":
+						h := F("outer_map", 1, KObject, Map)
+						h.Msg = in
+						root = &Message{Name: "T", Fields: []*Field{h}, Full: true}
+					}
+					// the inner levels keep three representatives per field, the field under test its full alphabet
+					for _, m := range allMessages(in) {
+						if m != c.Holder {
+							m.Full = false
+						}
+					}
+					s := c.Schema
+					s.Messages[0] = root
+					s.Root = root
+					out = append(out, &Case{ID: fmt.Sprintf("deep/%s/%s/%s/%s", k, l, inner, outer), Coord: fmt.Sprintf("kind=%s|label=%s|context=%s>%s", k, l, outer, inner), Schema: s, Under: c.Under, Holder: c.Holder})
+				}
+			}
+		}
+	}
+	return out
+}
